@@ -36,7 +36,7 @@ def crc_rule(pkt):
 class Prop(PropBase):
     pid = 'C20'
     kernels = []
-    vo_targets = ['Props/Properties_C20.vo', 'Proofs/Crc.vo', 'Proofs/BuildFlags.vo']
+    vo_targets = ['Props/Properties_C20.vo', 'Proofs/Crc.vo', 'Proofs/CrcBits.vo', 'Proofs/BuildFlags.vo']
     prop_files = ['Props/Properties_C20.v']
     tier = os.environ.get('VERIF_TIER', 'quick')
     harness_variants = ['asan'] + list(FLAGS)
@@ -47,7 +47,7 @@ class Prop(PropBase):
             '(clouds, points, packet records, errors); CRC build: packets with a valid stored CRC, single-bit corruptions anywhere in the packet, wrong stored values, against the model with the check on and '
             'against an independent zlib.crc32 oracle; kernels calcCrc32/isCrc32Correct against the model and zlib on random strings; non-trivial = scenario with >= 1 cloud (flags) or >= 1 rejected and >= 1 accepted packet (CRC)')
     explanation = ('C20_T1..T6 (Coq: ENABLE_DIFOP_PARSE inert for every packet history; regenerated table = bitwise reflected 0xEDB88320; table-driven = bit-by-bit IEEE CRC-32 for all byte strings; chaining; '
-                   'acceptance rule; the check rejects exactly the failing packets and changes nothing else) + build-variant correspondence')
+                   'acceptance rule; the check rejects exactly the failing packets and changes nothing else; every single-bit flip of the covered data changes the CRC, of the stored value changes the value read) + build-variant correspondence')
     assumptions = ['ENABLE_TRANSFORM is exercised with the default (identity) transform parameters, as the property states',
                    'the epoll/recvbuf/wait options act below the model (receiver and queue): decided by the differential runs of the real builds, not by a theorem']
     projection = {'kinds': {'cloud', 'p', 'pkt', 'err', 'ierr', 'temp', 'open', 'crash', 'nodrv', 'initfail'}, 'ignore_buf': True, 'ierr_last': True}
